@@ -51,10 +51,25 @@ def _build_runner(d, repo):
     ref = os.path.abspath(os.path.join(repo, "reference_impl"))
     toml = common.read(os.path.join(RUNNER, "Cargo.toml.in")).replace("@REFERENCE_IMPL@", ref.replace("\\", "/"))
     common.write(os.path.join(proj, "Cargo.toml"), toml)
+    # the private module for the directed search: the real source text minus its inner doc comments
+    try:
+        src = common.read(os.path.join(ref, "reference_impl.rs"))
+        common.write(os.path.join(proj, "src", "ri_private.rs"),
+                     "".join(l for l in src.splitlines(True) if not l.lstrip().startswith("//!")) +
+                     "\n// appended by verif/lib/eval_backend.py: the only way into the private function from outside the module\n"
+                     "pub fn vf_compress(cv: &[u32; 8], bw: &[u32; 16], counter: u64, block_len: u32, flags: u32) -> [u32; 16] {\n"
+                     "    compress(cv, bw, counter, block_len, flags)\n}\n")
+    except OSError:
+        pass
     target = os.path.join(d, "target")
     cmd = ["cargo", "build", "--offline", "--release", "--quiet"]
-    rc, out, err, secs = run(cmd, timeout=600, mem_gb=None, cwd=proj,
+    rc, out, err, secs = run(cmd, timeout=900, mem_gb=None, cwd=proj,
                              env={"CARGO_TARGET_DIR": target, "CARGO_NET_OFFLINE": "true"})
+    if rc != 0 and rc != -9:
+        # the private module does not compile against this tree (renamed / re-typed compress): build without it
+        cmd = cmd + ["--no-default-features"]
+        rc, out, err, secs = run(cmd, timeout=900, mem_gb=None, cwd=proj,
+                                 env={"CARGO_TARGET_DIR": target, "CARGO_NET_OFFLINE": "true"})
     text = "cd <scratch>/vectors_runner && CARGO_TARGET_DIR=<scratch>/target " + " ".join(cmd)
     binp = os.path.join(target, "release", "vectors_runner")
     if rc != 0 or not os.path.exists(binp):
